@@ -230,6 +230,59 @@ def enumerated3_case(ctx, rng, idx):
     _compare(ctx, case, ll, case.point(rng), tag='enum')
 
 
+def long_case(ctx, rng, idx):
+    """long observation series whose noise scales are far from 1: totals of
+    hundreds to thousands of nats (sums of log-scales beyond +-745) must
+    still be the plain sum of the per-measurement log-densities"""
+    n_out = int(rng.integers(1, 3))
+    case = G.LLCase(rng, n_out=n_out, arrangement='random')
+    case.em_names = [G.EM_CLASSES[(idx + o) % len(G.EM_CLASSES)]
+                     for o in range(n_out)]
+    lens = [int(rng.choice([300, 800, 2000, 5000])) for _ in range(n_out)]
+    if n_out == 2 and rng.random() < 0.5:
+        lens[1] = int(rng.integers(1, 40))
+    tmax = float(rng.choice([4.0, 20.0]))
+    case.times = [np.sort(rng.uniform(0, tmax, size=m)) for m in lens]
+    case.arrangement = 'long'
+    amp = float(rng.choice([1e-3, 1e-2, 1.0, 50.0, 500.0]))
+    case.true = case.true.copy()
+    case.true[:n_out] *= amp
+    case.true[n_out + 1] *= amp
+    _regen(case, rng)
+    ctx.case(('long', tuple(case.em_names), tuple(lens), amp), True,
+             sample=dict(case.describe(), times='omitted',
+                         observations='omitted', lengths=lens, amp=amp))
+    try:
+        ll = case.build()
+    except (ValueError, TypeError) as e:
+        ctx.reject('constructor: ' + str(e)[:60])
+        return
+    ctx.count('constructed')
+    ctx.count('long_series_cases')
+    x = case.point(rng, spread=0.05)
+    # additive noise scales follow the amplitude
+    s = case.n_mech
+    for nm in case.em_names:
+        npar = D.ERROR_MODELS[nm][0]
+        if nm == 'GaussianErrorModel' or npar == 2:
+            x[s] *= amp
+        s += npar
+    val = _compare(ctx, case, ll, x, tag='long')
+    if val is None:
+        return
+    try:
+        score, _ = ll.evaluateS1(x)
+    except Exception as e:      # noqa
+        ctx.violation_exc('constructed_object_evaluates', e,
+                          {'case': 'long', 'call': 'evaluateS1'})
+        return
+    ref = float(np.real(case.ref_total(x)))
+    if not ctx.close(score, ref, rtol=1e-9, scale=abs(ref) + 10):
+        ctx.violation('s1_score_vs_bruteforce', 'value_mismatch:s1_long',
+                      {'chi': score, 'reference': ref, 'lengths': lens,
+                       'amp': amp, 'error_models': case.em_names, 'x': x})
+
+
 def _regen(case, rng):
     """regenerate error parameters / observations after editing the case"""
     n = case.n_out
@@ -342,4 +395,5 @@ FAMILIES = [
     Family('enumerated', enumerated_case, quick=6561, thorough=6561 * 16),
     Family('enumerated3', enumerated3_case, quick=512, thorough=4096),
     Family('sbml', sbml_case, quick=96, thorough=2000),
+    Family('long', long_case, quick=160, thorough=1600),
 ]
